@@ -48,10 +48,18 @@ var Drops int
 // and every object named "b" is terminating (deletionTimestamp set, still existing): kcache keys and orders objects
 // by namespace/name and resourceVersion only, so neither field may influence anything.
 func Pod(ns, name, rv, labels string) *corev1.Pod {
-	p := &corev1.Pod{ObjectMeta: metav1.ObjectMeta{Namespace: ns, Name: name, ResourceVersion: rv, Labels: ParseLabels(labels), Generation: 7}}
+	// metadata nothing in the properties depends on, but a cache might wrongly: a constant generation, annotations that
+	// reuse the label key with another value, finalizers on "a", a deletion timestamp and a controller owner on "b"
+	p := &corev1.Pod{ObjectMeta: metav1.ObjectMeta{Namespace: ns, Name: name, ResourceVersion: rv, Labels: ParseLabels(labels), Generation: 7,
+		Annotations: map[string]string{"l": "9", "name": "zz"}}}
+	if name == "a" {
+		p.Finalizers = []string{"verif/hold"}
+	}
 	if name == "b" {
 		t := metav1.Unix(1000, 0)
 		p.DeletionTimestamp = &t
+		yes := true
+		p.OwnerReferences = []metav1.OwnerReference{{APIVersion: "apps/v1", Kind: "ReplicaSet", Name: "a", UID: "u-a", Controller: &yes}}
 	}
 	return p
 }
